@@ -277,12 +277,41 @@ func namedOf(t types.Type) *types.Named {
 }
 
 func typeShort(t types.Type) string {
-	return types.TypeString(t, func(p *types.Package) string {
+	s := types.TypeString(t, func(p *types.Package) string {
 		if strings.HasPrefix(p.Path(), modPath) {
 			return ""
 		}
 		return p.Name()
 	})
+	for tn, cn := range canon.typ {
+		if tn.Name() != cn && strings.Contains(s, tn.Name()) {
+			s = replaceWord(s, tn.Name(), cn)
+		}
+	}
+	return s
+}
+
+// replaceWord replaces whole-identifier occurrences of old by new.
+func replaceWord(s, old, new string) string {
+	var b strings.Builder
+	for i := 0; i < len(s); {
+		if strings.HasPrefix(s[i:], old) {
+			before := i == 0 || !isIdentByte(s[i-1])
+			after := i+len(old) >= len(s) || !isIdentByte(s[i+len(old)])
+			if before && after {
+				b.WriteString(new)
+				i += len(old)
+				continue
+			}
+		}
+		b.WriteByte(s[i])
+		i++
+	}
+	return b.String()
+}
+
+func isIdentByte(c byte) bool {
+	return c == '_' || (c >= '0' && c <= '9') || (c >= 'a' && c <= 'z') || (c >= 'A' && c <= 'Z')
 }
 
 func structFieldName(t types.Type, idx int) (owner, name string) {
@@ -290,10 +319,10 @@ func structFieldName(t types.Type, idx int) (owner, name string) {
 		t = pt.Elem()
 	}
 	if n := namedOf(t); n != nil {
-		owner = n.Obj().Name()
+		owner = canonTypeName(n.Obj())
 	}
 	if st, ok := t.Underlying().(*types.Struct); ok && idx < st.NumFields() {
-		name = st.Field(idx).Name()
+		name = canonFieldName(st.Field(idx))
 	}
 	return
 }
@@ -321,13 +350,13 @@ func calleeName(c *ssa.CallCommon) string {
 func shortFuncName(f *ssa.Function) string {
 	if f.Signature != nil && f.Signature.Recv() != nil {
 		rt := f.Signature.Recv().Type()
-		return strings.TrimPrefix(typeShort(rt), "*") + "." + f.Name()
+		return strings.TrimPrefix(typeShort(rt), "*") + "." + fnName(f)
 	}
 	if f.Parent() != nil {
 		return shortFuncName(f.Parent()) + "$" + strings.TrimPrefix(f.Name(), f.Parent().Name()+"$")
 	}
 	if f.Pkg != nil {
-		return f.Pkg.Pkg.Name() + "." + f.Name()
+		return f.Pkg.Pkg.Name() + "." + fnName(f)
 	}
 	// instantiated generics / synthetic
 	if o := f.Object(); o != nil && o.Pkg() != nil {
